@@ -536,5 +536,289 @@ Definition run_chk_corridor (x : sx) : sx :=
   | _ => A (-2529)
   end.
 
+(* ---- 2503 / 2504: the wrapper stacks under the managers ----------------------------------------
+   2503 input  (end n draws kind wk (mapping ord) calls)
+                 wk 0 SuperAgentWrapper (mapping: covered agents per super agent; ord: see perm_sim),
+                    1 CommunicationHandshakeWrapper, 2 Ravel, 3 Flatten, 4 Flatten over Ravel
+                 calls (0) | (1 acts shuffled); one action
+                    wk 0: (i (0 ((c a) ...))) super agent | (i (1 a)) uncovered agent
+                    wk 1: (i a send receive)       send / receive: ((other 0/1) ...)
+                    wk 2-4: (i upoint)
+        output ((resp snapshot) ...) as 2501, snapshot of the INNER corridor; one observation
+                    wk 0: (i (1 ((c position left right) ...) ((c live) ...))) | (i (2 position left right))
+                    wk 1: (i (1 (position left right) message_buffer))
+                    wk 2-4: (i upoint)                     (9): the wrapper model answered an error *)
+Definition dec_gcall {Act : Type} (dact : sx -> option (nat * Act)) (x : sx) : option (call Act) :=
+  match x with
+  | L [A 0] => Some CReset
+  | L [A 1; L a; L sh] =>
+      match all_some (map dact a), all_some (map dact sh) with
+      | Some a', Some sh' => Some (CStep a' sh')
+      | _, _ => None
+      end
+  | _ => None
+  end.
+
+Definition dec_sact (x : sx) : option (nat * sact Z) :=
+  match x with
+  | L [i; L [A 0; acts]] =>
+      match sxNat i, dec_kvs acts with
+      | Some i', Some a' => Some (i', SSuper a')
+      | _, _ => None
+      end
+  | L [i; L [A 1; A a]] => option_map (fun i' => (i', SPlain a)) (sxNat i)
+  | _ => None
+  end.
+
+Definition enc_wobs (kv : nat * wresp cobs unit) : sx :=
+  L [ofNat (fst kv);
+     match snd kv with
+     | WSupObs ents mask => L [A 1; L (map enc_kcobs ents); L (map enc_kb mask)]
+     | WPlainObs o => L (A 2 :: enc_cobs o)
+     | _ => L [A 9]
+     end].
+Definition enc_qobs (kv : nat * cresp cobs unit) : sx :=
+  L [ofNat (fst kv);
+     match snd kv with
+     | CObs o b => L [A 1; L (enc_cobs o); enc_row b]
+     | _ => L [A 9]
+     end].
+
+Definition wk_stack (wk : Z) : option (list wkind) :=
+  if wk =? 2 then Some [WRavel] else if wk =? 3 then Some [WFlatten]
+  else if wk =? 4 then Some [WFlatten; WRavel] else None.
+
+Record wrap_in := { wi_end : Z; wi_n : nat; wi_draws : list (list Z); wi_kind : mgr; wi_wk : Z;
+                    wi_map : list (list nat); wi_ord : list nat; wi_calls : list sx }.
+
+Definition dec_wrap (x : sx) : option wrap_in :=
+  match x with
+  | L [A e; A n; dr; A k; A wk; L [mp; od]; L cs] =>
+      match sxZZs dr, dec_kind k, dec_nats2 mp, sxNats od with
+      | Some dr', Some k', Some mp', Some od' =>
+          if (e <? 0) || (n <? 0) then None
+          else Some {| wi_end := e; wi_n := Z.to_nat n; wi_draws := dr'; wi_kind := k'; wi_wk := wk;
+                       wi_map := mp'; wi_ord := od'; wi_calls := cs |}
+      | _, _, _, _ => None
+      end
+  | _ => None
+  end.
+
+Definition run_wrapped (x : sx) : sx :=
+  match dec_wrap x with
+  | None => sx_err
+  | Some i =>
+      let s0 := co_init (draws_of (wi_draws i)) in
+      let e := wi_end i in let n := wi_n i in let k := wi_kind i in
+      if wi_wk i =? 0 then
+        match all_some (map (dec_gcall dec_sact) (wi_calls i)) with
+        | Some cs => L (map (enc_rec enc_wobs)
+                          (fst (run_snap (perm_sim (wi_ord i) (corr_super e n (wi_map i))) w_sim k
+                                         (init (w_init s0)) cs)))
+        | None => sx_err
+        end
+      else if wi_wk i =? 1 then
+        match all_some (map (dec_gcall dec_cact) (wi_calls i)) with
+        | Some cs => L (map (enc_rec enc_qobs)
+                          (fst (run_snap (corr_comm e n) c_sim k (init (c_init s0)) cs)))
+        | None => sx_err
+        end
+      else
+        match wk_stack (wi_wk i), all_some (map (dec_gcall dec_av) (wi_calls i)) with
+        | Some ks, Some cs => L (map (enc_rec enc_av)
+                                   (fst (run_snap (corr_sar e n ks) (fun s => s) k (init s0) cs)))
+        | _, _ => sx_err
+        end
+  end.
+
+(* ---- checker 2504: clauses 2511-2514 on the inner snapshot as 2502, and
+     2535 keys of the four dictionaries / duplicate / unknown / already reported done
+     2536 a done flag is not the specification's: uncovered, communication, ravelled / flattened
+          agent: arrived; super agent: every covered agent arrived
+     2537 an observation is not the specification's: the corridor observation of the snapshot,
+          per covered agent with mask = not arrived (super), with the message buffer the history
+          of sends prescribes (communication), re-decoded down the stack and a member of the
+          wrapped space (Ravel / Flatten)
+     2538 `__all__`   2540 reset   2541 rejection   2542 error answer   2549 malformed          *)
+Section ChkWrapped.
+  Context {Obs Act : Type}.
+  Variable cend : Z.
+  Variable n : nat.                 (* agents of the corridor *)
+  Variable N : nat.                 (* agents of the wrapped simulation *)
+  Variable k : mgr.
+  Variable wdone : snap -> nat -> bool.
+  Variable wobs_ok : list (list (nat * Act)) -> snap -> nat * Obs -> bool.
+
+  Definition wout_chk (gd : list nat) (h : list (list (nat * Act))) (o : out Obs unit) (s : snap) : Z :=
+    let ks := map fst (o_obs o) in
+    if negb (nats_eqb (map fst (o_rew o)) ks && nats_eqb (map fst (o_done o)) ks &&
+             nats_eqb (map fst (o_info o)) ks && nodupb ks &&
+             forallb (fun a => Nat.ltb a N && negb (memb a gd)) ks) then 2535
+    else if negb (forallb (fun kb => Bool.eqb (snd kb) (wdone s (fst kb))) (o_done o)) then 2536
+    else if negb (forallb (wobs_ok h s) (o_obs o)) then 2537
+    else if negb (Bool.eqb (o_all o)
+                    (forallb (arrived cend s) (seq 0 n) ||
+                     forallb (fun a => memb a (gd ++ map fst (filter snd (o_done o)))) (seq 0 N))) then 2538
+    else 0.
+
+  Definition wreset_chk (obs : list (nat * Obs)) (s : snap) : Z :=
+    if negb (forallb (fun p => p <? cend - 1) (sn_pos s) && forallb (fun r => r =? 0) (sn_rew s) &&
+             forallb (wobs_ok [] s) obs &&
+             nats_eqb (map fst obs) (match k with MAll => seq 0 N | _ => firstn 1 (seq 0 N) end))
+    then 2540 else 0.
+
+  Definition wasked_of (r : resp Obs unit) (old : list nat) : list nat :=
+    match r with
+    | RObs obs => map fst obs
+    | ROut o => map fst (filter (fun kb => negb (snd kb)) (o_done o))
+    | _ => old
+    end.
+
+  Fixpoint chk_wrecs (live : bool) (gd asked : list nat) (h : list (list (nat * Act)))
+           (cs : list (call Act)) (rs : list (resp Obs unit * snap)) : Z :=
+    match cs, rs with
+    | [], [] => 0
+    | c :: cs', (r, s) :: rs' =>
+        if sn_bad s then
+          match c with
+          | CReset => if Z.of_nat n <=? cend - 1 then 2511 else 0
+          | CStep acts sh =>
+              if live && forallb (fun kv => memb (fst kv) asked) (acts ++ sh) then 2511 else 0
+          end
+        else
+        let c0 := snap_chk cend n s in
+        match c, r with
+        | CReset, RObs obs =>
+            if negb (c0 =? 0) then c0
+            else let c1 := wreset_chk obs s in
+                 if c1 =? 0 then chk_wrecs true [] (wasked_of r asked) [] cs' rs' else c1
+        | CReset, _ => 2542
+        | CStep acts sh, _ =>
+            if negb live then 0
+            else if negb (c0 =? 0) then c0
+            else
+              let names_done := existsb (fun kv => memb (fst kv) gd) acts in
+              match r with
+              | ROut o =>
+                  if names_done then 2541
+                  else let h' := (match k with MAll => sh | _ => acts end) :: h in
+                       let c1 := wout_chk gd h' o s in
+                       if c1 =? 0
+                       then chk_wrecs (negb (o_all o)) (gd ++ map fst (filter snd (o_done o)))
+                                      (wasked_of r asked) h' cs' rs'
+                       else c1
+              | RReject => if names_done then chk_wrecs live gd asked h cs' rs' else 2541
+              | RError =>
+                  match k, acts with
+                  | MTurn, [] => chk_wrecs live gd asked h cs' rs'
+                  | _, _ => 2542
+                  end
+              | _ => 2542
+              end
+        end
+    | _, _ => 2549
+    end.
+End ChkWrapped.
+
+(* specifications per wrapper, from the snapshot of the inner corridor *)
+Definition kcobs_ok (cend : Z) (s : snap) (kv : nat * cobs) : bool :=
+  cobs_eqb (snd kv) (spec_obs cend s (fst kv)).
+
+(* SuperAgentWrapper: ord / mapping as in the input; index of the packaged simulation -> agents *)
+Definition sup_members (n : nat) (mapping : list (list nat)) (ord : list nat) (i : nat) : option (list nat) + nat :=
+  let j := nth i ord (length mapping + n)%nat in
+  if Nat.ltb j (length mapping) then inl (nth_error mapping j)
+  else inr (nth (j - length mapping)%nat
+                (filter (fun a => negb (memb a (concat mapping))) (seq 0 n)) n).
+Definition sup_wdone (cend : Z) (n : nat) (mapping : list (list nat)) (ord : list nat) (s : snap) (i : nat) : bool :=
+  match sup_members n mapping ord i with
+  | inl (Some cv) => forallb (arrived cend s) cv
+  | inl None => false
+  | inr a => arrived cend s a
+  end.
+Definition sup_wobs_ok (cend : Z) (n : nat) (mapping : list (list nat)) (ord : list nat)
+           (h : list (list (nat * sact Z))) (s : snap) (kv : nat * wresp cobs unit) : bool :=
+  match sup_members n mapping ord (fst kv), snd kv with
+  | inl (Some cv), WSupObs ents mask =>
+      nats_eqb (map fst ents) cv && forallb (kcobs_ok cend s) ents &&
+      kbs_eqb mask (map (fun c => (c, negb (arrived cend s c))) cv)
+  | inr a, WPlainObs o => cobs_eqb o (spec_obs cend s a)
+  | _, _ => false
+  end.
+
+(* CommunicationHandshakeWrapper: the message buffer shows who sent to me in the last step *)
+Definition com_wobs_ok (cend : Z) (n : nat) (h : list (list (nat * cact Z))) (s : snap)
+           (kv : nat * cresp cobs unit) : bool :=
+  match snd kv with
+  | CObs o b => cobs_eqb o (spec_obs cend s (fst kv)) &&
+                row_eqb b (map (fun x => (x, spec_buf h (fst kv) x)) (others n (fst kv)))
+  | _ => false
+  end.
+
+(* Ravel / Flatten stacks: decoded down the stack the observation is the corridor's, and it is a
+   member of the wrapped observation space *)
+Definition sar_wobs_ok (cend : Z) (n : nat) (ks : list wkind) (h : list (list (nat * upoint)))
+           (s : snap) (kv : nat * upoint) : bool :=
+  let sp := corr_spaces cend n in
+  upoint_eqb (redecode_obs ks sp (fst kv) (snd kv)) (obs_u (spec_obs cend s (fst kv))) &&
+  obs_member (level_spaces ks sp) (fst kv) (snd kv).
+
+Definition dec_wobs (x : sx) : option (nat * wresp cobs unit) :=
+  match x with
+  | L [i; L [A 1; L ents; L mask]] =>
+      match sxNat i, all_some (map dec_kcobs ents), all_some (map dec_kb mask) with
+      | Some i', Some e, Some m => Some (i', WSupObs e m)
+      | _, _, _ => None
+      end
+  | L [i; L [A 2; A p; A l; A r]] =>
+      option_map (fun i' => (i', WPlainObs {| ob_pos := p; ob_left := l; ob_right := r |})) (sxNat i)
+  | L [i; L [A 9]] => option_map (fun i' => (i', WError 0)) (sxNat i)
+  | _ => None
+  end.
+Definition dec_qobs (x : sx) : option (nat * cresp cobs unit) :=
+  match x with
+  | L [i; L [A 1; L [A p; A l; A r]; b]] =>
+      match sxNat i, Comms.dec_row b with
+      | Some i', Some b' => Some (i', CObs {| ob_pos := p; ob_left := l; ob_right := r |} b')
+      | _, _ => None
+      end
+  | L [i; L [A 9]] => option_map (fun i' => (i', CErr 0)) (sxNat i)
+  | _ => None
+  end.
+
+Definition run_chk_wrapped (x : sx) : sx :=
+  match x with
+  | L [xin; L recs] =>
+      match dec_wrap xin with
+      | None => A (-2549)
+      | Some i =>
+          let e := wi_end i in let n := wi_n i in let k := wi_kind i in
+          let fin := fun c : Z => if c =? 0 then A 1 else A (- c) in
+          if wi_wk i =? 0 then
+            match all_some (map (dec_gcall dec_sact) (wi_calls i)), all_some (map (dec_rec dec_wobs) recs) with
+            | Some cs, Some rs =>
+                fin (chk_wrecs e n (length (wi_ord i)) k (sup_wdone e n (wi_map i) (wi_ord i))
+                               (sup_wobs_ok e n (wi_map i) (wi_ord i)) false [] [] [] cs rs)
+            | _, _ => A (-2549)
+            end
+          else if wi_wk i =? 1 then
+            match all_some (map (dec_gcall dec_cact) (wi_calls i)), all_some (map (dec_rec dec_qobs) recs) with
+            | Some cs, Some rs =>
+                fin (chk_wrecs e n n k (arrived e) (com_wobs_ok e n) false [] [] [] cs rs)
+            | _, _ => A (-2549)
+            end
+          else
+            match wk_stack (wi_wk i), all_some (map (dec_gcall dec_av) (wi_calls i)),
+                  all_some (map (dec_rec dec_av) recs) with
+            | Some ks, Some cs, Some rs =>
+                fin (chk_wrecs e n n k (arrived e) (sar_wobs_ok e n ks) false [] [] [] cs rs)
+            | _, _, _ => A (-2549)
+            end
+      end
+  | _ => A (-2549)
+  end.
+
 (* DISPATCH: 2501 => run_corridor *)
 (* DISPATCH: 2502 => run_chk_corridor *)
+(* DISPATCH: 2503 => run_wrapped *)
+(* DISPATCH: 2504 => run_chk_wrapped *)
